@@ -9,6 +9,10 @@ CLAIMED = {
    text='TLC checks the selection semantics (SFFrame: positional keys via Python-exact slices, label keys, stop-inclusive label slices, dimensionality rule) on every key of a small scope (MC_C04) and shows that the as-built slice translation meets the required meaning; every TLC-enumerated case is replayed on the real Frame/Series for every block layout, and seeded random frames/keys recorded from the real code are validated by TLC (Trace_C04).',
    ref='DESIGN.md section 4 (C04)', note='Trusted: TLC, the projection (sfverif.project), NumPy. Exhaustive only inside MC_C04 bounds (3x3 quick / 4x4 thorough); beyond that the evidence is the validated sample.',
    technique='TLA+ spec SFFrame/SFSeq + TLC model checking; TLC state dump replayed into the code; recorded calls validated by a TLC trace spec'),
+ 'C08': dict(
+   text='TLC checks the functional-update semantics (SFUpdate: assign with element / label-aligned Series / Frame values, assign.bloc, drop, mask, astype, relabel, rename, insert) against the declarative statements OnlyAddressed / ElementStored / DropExact / MaskExact on every key x value shape of a small scope (MC_C08); every enumerated case is replayed on the real Frame/Series on block layouts with the source re-projected after the call, and seeded random calls recorded from the real code are validated by TLC (Trace_Ops).',
+   ref='DESIGN.md section 4 (C08)', note='Trusted: TLC, the projection, NumPy. Error classes are not observables of C08. Frame-valued assignment is compared dtype-free (layout-dependent dtype is recorded under C03).',
+   technique='TLA+ spec SFUpdate + TLC model checking; TLC state dump replayed into the code; recorded calls validated by a TLC trace spec'),
 }
 REASON_TODO = 'not yet built in this round: the specification module for this property is still being written (see DESIGN.md section 9)'
 ALL = ['C%02d' % i for i in range(1, 21)]
